@@ -104,6 +104,20 @@ def check(ctx):
     # C13), or a cell receives other cells' values
     from .C13 import check_index_spaces
     check_index_spaces(ctx)
+    # nothing computed for one cell is handed to another through a cache:
+    # every memo table on the way from the chunk to the per-cell records
+    # (election, back-fill in the taxonomy class) is keyed by everything
+    # its values are computed from (sa/rules/nodekeys.py)
+    from ..rules.nodekeys import check_memo_keys
+    n_memo = 0
+    for fi_ in db.iter_functions():
+        if fi_.module.short in ('type_assignment.election',
+                                'type_assignment.matching',
+                                'taxonomy.taxonomy_tree',
+                                'taxonomy.utils'):
+            n_memo += check_memo_keys(ctx, fi_)
+    ctx.ok('R-MEMO/key-complete', 'election and taxonomy modules',
+           'package', f'{n_memo} memo table(s) judged', nontrivial=False)
 
 
 def check_cell_selection(ctx):
